@@ -77,6 +77,13 @@ def _implied(guards):
     return out
 
 
+# functions whose scenario table passes these options in and renders what each worker receives (sa/scenarios_def.sc_item_dispatch)
+BY_SCENARIOS = {
+    'dimarray.core.bases.AbstractDimArray._setitem': ('axis', 'indexing', 'tol', 'cast', 'broadcast'),
+    'dimarray.core.bases.AbstractDimArray._getitem': ('axis', 'indexing', 'tol', 'keepdims', 'broadcast'),
+}
+
+
 def instances(ctx):
     return [e for e in load_table() if ctx.prop in e['props']]
 
@@ -105,6 +112,13 @@ def rule_forwarding(ctx, rid):
         if not calls and ent['callee'].startswith('_') and not any(f.name == ent['callee'] for f in ctx.P.functions.values()):
             ctx.holds(rid, label + ': the private worker no longer exists anywhere (merged into its caller): the option is used where it is given')
             continue
+        if not calls and q in BY_SCENARIOS and ent['param'] in BY_SCENARIOS[q]:
+            from . import scenarios_def as SD
+            if q in SD.SCENARIOS and ctx.prop in SD.SCENARIOS[q][0]:
+                # the call is made in a form this rule does not read (through a helper, a bound method picked first ...): what the worker receives for this option
+                # is part of the outcome of the function's interpreted scenarios (rule RS of this property), which hand the option in and render the worker's arguments
+                ctx.holds(rid, label + ': no direct call any more - decided by the interpreted scenarios of %s (RS), which pass %s and render what the worker receives' % (q.rsplit('.', 1)[-1], ent['param']))
+                continue
         if not calls:
             ctx.undecide(rid, '%s: %s is no longer called from this function (table instance vanished)' % (label, ent['callee']))
             continue
